@@ -15,6 +15,7 @@ import (
 	"go.brendoncarroll.net/p2p/s/memswarm"
 	"go.brendoncarroll.net/p2p/s/multiswarm"
 	"go.brendoncarroll.net/p2p/s/p2pkeswarm"
+	"go.brendoncarroll.net/p2p/s/quicswarm"
 	"go.brendoncarroll.net/p2p/s/wlswarm"
 
 	"verifsim/simnet"
@@ -78,6 +79,7 @@ type Params struct {
 	AllowAll  bool
 	ManyParts bool                    // lengths biased to the part-count boundaries of the fragmenting layers
 	Whitelist func(from, to int) bool // wlswarm / p2pke whitelist by node index
+	QuicMTU   int
 }
 
 func (w *World) baseSim() tier[simnet.Addr] {
@@ -339,6 +341,47 @@ func p2pkeL[A p2p.Addr](w *World, t tier[A]) tier[p2pkeswarm.Addr[A]] {
 	return secureTier(xs)
 }
 
+// quicL: the QUIC swarm (real quic-go, TLS 1.3 with the node keys) over any datagram tier.
+// quic-go's own goroutines are not instrumented: they run freely between the scheduler's
+// quiescent points (Tier B: application-level outcomes replay, packet traces do not).
+func quicL[A p2p.Addr](w *World, t tier[A]) tier[quicswarm.Addr[A]] {
+	var xs []p2p.SecureSwarm[quicswarm.Addr[A], Pub]
+	ids := make([]p2p.PeerID, len(t.sw))
+	for i := range t.sw {
+		ids[i] = quicswarm.DefaultFingerprinter(w.Pubs[i])
+	}
+	mtu := w.P.QuicMTU
+	if mtu == 0 {
+		mtu = 1 << 16
+	}
+	for i, s := range t.sw {
+		me := i
+		opts := []quicswarm.Option[A]{quicswarm.WithMTU[A](mtu)}
+		if w.P.Whitelist != nil {
+			opts = append(opts, quicswarm.WithWhilelist[A](func(a p2p.Addr) bool {
+				qa, ok := a.(quicswarm.Addr[A])
+				if !ok {
+					return false
+				}
+				for j, id := range ids {
+					if id == qa.ID {
+						return w.P.Whitelist(j, me)
+					}
+				}
+				return false
+			}))
+		}
+		x, err := quicswarm.New[A](s, w.Keys[i], opts...)
+		if err != nil {
+			panic(err)
+		}
+		xs = append(xs, x)
+	}
+	t2 := secureTier(xs)
+	t2.ask = true
+	return t2
+}
+
 func multiL[A, B p2p.Addr](w *World, ta tier[A], tb tier[B]) tier[multiswarm.Addr] {
 	ask := ta.ask && tb.ask
 	for i := range ta.sw {
@@ -438,6 +481,12 @@ func below[A p2p.Addr](w *World, spec []string, t tier[A]) []Endpoint {
 				}
 			}
 			return above(w, spec[:i], p2pkeL(w, t))
+		}
+		if spec[i] == "quic" {
+			if i != len(spec)-1 {
+				panic("quic must sit directly on the base")
+			}
+			return above(w, spec[:i], quicL(w, t))
 		}
 	}
 	return above(w, spec, t)
